@@ -259,6 +259,92 @@ Section Accept.
     set (Q := abs t ++ inbound) in *. rewrite <- (firstn_skipn (length blk) Q), map_app in ND.
     apply nodup_app_l in ND. exact ND.
   Qed.
+
+  (* ---------- chains of blocks ---------- *)
+
+  Lemma accept_hash_split t inbound blk num gl t' : Inv t -> wf_etxs inbound ->
+    accept_block H hash heqb t inbound blk num gl = (VAccept, t') ->
+    map hash (abs t ++ inbound) = map hash (map fst blk) ++ map hash (abs t') /\ Inv t'.
+  Proof.
+    intros I W E.
+    destruct (accept_block_refines t inbound blk num gl I W) as (V & I' & A).
+    rewrite E in V, I', A. cbn [fst snd] in *. symmetry in V.
+    apply list_accept_inv in V as [V _]. apply cmp_spec_accept in V as (L & K & M).
+    rewrite K in A. split; [|exact I'].
+    rewrite M, A, <- map_app, firstn_skipn. reflexivity.
+  Qed.
+
+  (* ETXs executed by the accepted candidates, in chain order *)
+  Fixpoint chain_executed (t : trie) (inb : list etx) (cs : list cand) : list etx :=
+    match cs with
+    | [] => []
+    | (blk, num, gl, next) :: cs' =>
+        let '(v, t') := accept_block H hash heqb t inb blk num gl in
+        match v with
+        | VAccept => map fst blk ++ chain_executed t' next cs'
+        | _ => chain_executed t inb cs'
+        end
+    end.
+
+  (* inbound sets attached to the accepted candidates (what the dominant chain delivered) *)
+  Fixpoint chain_delivered (t : trie) (inb : list etx) (cs : list cand) : list etx :=
+    match cs with
+    | [] => []
+    | (blk, num, gl, next) :: cs' =>
+        let '(v, t') := accept_block H hash heqb t inb blk num gl in
+        match v with
+        | VAccept => next ++ chain_delivered t' next cs'
+        | _ => chain_delivered t inb cs'
+        end
+    end.
+
+  Definition wf_cands (cs : list cand) : Prop := Forall (fun c : cand => wf_etxs (snd c)) cs.
+
+  Lemma wf_etxs_app l1 l2 : wf_etxs l1 -> wf_etxs l2 -> wf_etxs (l1 ++ l2).
+  Proof. unfold wf_etxs. intros. apply Forall_app. auto. Qed.
+
+  (* over any sequence of candidate blocks (accepted or refused): everything pending at the
+     start or delivered on the way is either executed by an accepted block -- once, in queue
+     order -- or still pending at the end *)
+  Lemma chain_conservation cs : forall t inb, Inv t -> wf_etxs inb -> wf_cands cs ->
+    let r := run_chain H hash heqb t inb cs in
+    Inv (snd (fst r)) /\ wf_etxs (snd r) /\
+    map hash (abs t ++ inb) ++ map hash (chain_delivered t inb cs) =
+    map hash (chain_executed t inb cs) ++ map hash (abs (snd (fst r)) ++ snd r).
+  Proof.
+    induction cs as [|[[[blk num] gl] next] cs IH]; intros t inb I W Wc; cbn zeta.
+    - cbn. rewrite app_nil_r. auto.
+    - inversion Wc as [|? ? Wn Wcs]; subst. cbn [snd] in Wn.
+      cbn [run_chain chain_executed chain_delivered].
+      destruct (accept_block H hash heqb t inb blk num gl) as [v t'] eqn:E.
+      destruct v.
+      + destruct (accept_hash_split t inb blk num gl t' I W E) as [Sp I'].
+        specialize (IH t' next I' Wn Wcs). cbn zeta in IH.
+        destruct (run_chain H hash heqb t' next cs) as [[vs tf] inbf]. cbn [fst snd] in *.
+        destruct IH as (If & Wf & C). split; [exact If|split; [exact Wf|]].
+        rewrite Sp, !map_app, <- !app_assoc. f_equal.
+        rewrite !map_app in C. rewrite app_assoc. exact C.
+      + specialize (IH t inb I W Wcs). cbn zeta in IH.
+        destruct (run_chain H hash heqb t inb cs) as [[vs tf] inbf]. cbn [fst snd] in *.
+        destruct IH as (If & Wf & C). split; [exact If|split; [exact Wf|exact C]].
+      + specialize (IH t inb I W Wcs). cbn zeta in IH.
+        destruct (run_chain H hash heqb t inb cs) as [[vs tf] inbf]. cbn [fst snd] in *.
+        destruct IH as (If & Wf & C). split; [exact If|split; [exact Wf|exact C]].
+      + specialize (IH t inb I W Wcs). cbn zeta in IH.
+        destruct (run_chain H hash heqb t inb cs) as [[vs tf] inbf]. cbn [fst snd] in *.
+        destruct IH as (If & Wf & C). split; [exact If|split; [exact Wf|exact C]].
+      + specialize (IH t inb I W Wcs). cbn zeta in IH.
+        destruct (run_chain H hash heqb t inb cs) as [[vs tf] inbf]. cbn [fst snd] in *.
+        destruct IH as (If & Wf & C). split; [exact If|split; [exact Wf|exact C]].
+  Qed.
+
+  Lemma chain_no_double_execution cs t inb : Inv t -> wf_etxs inb -> wf_cands cs ->
+    NoDup (map hash (abs t ++ inb) ++ map hash (chain_delivered t inb cs)) ->
+    NoDup (map hash (chain_executed t inb cs)).
+  Proof.
+    intros I W Wc ND. destruct (chain_conservation cs t inb I W Wc) as (_ & _ & C).
+    rewrite C in ND. apply nodup_app_l in ND. exact ND.
+  Qed.
 End Accept.
 
 (* non-vacuity material: a concrete queue and blocks *)
